@@ -457,6 +457,60 @@ func (e *docEnv) verify(pk *ethsecp256k1.PubKey, msg, sig []byte) (ok bool) {
 	return pk.VerifySignature(msg, sig)
 }
 
+// renderProtoTwoSigners is a SIGN_MODE_DIRECT sign document of a transaction with TWO signer infos (a fee payer that is
+// not the message signer): index 0 = the message signer (sequence d.Seq), index 1 = the fee payer (sequence paySeq).
+func (d *doc) renderProtoTwoSigners(pub, payerPub *ethsecp256k1.PubKey, paySeq uint64, payerAccNum uint64, forPayer bool) []byte {
+	anys := make([]*codectypes.Any, len(d.Msgs))
+	for i, m := range d.Msgs {
+		anys[i] = mustAny(m)
+	}
+	body := &txtypes.TxBody{Messages: anys, Memo: d.Memo, TimeoutHeight: d.Timeout}
+	mode := &txtypes.ModeInfo{Sum: &txtypes.ModeInfo_Single_{Single: &txtypes.ModeInfo_Single{Mode: signing.SignMode_SIGN_MODE_DIRECT}}}
+	ai := &txtypes.AuthInfo{
+		SignerInfos: []*txtypes.SignerInfo{{PublicKey: mustAny(pub), ModeInfo: mode, Sequence: d.Seq}, {PublicKey: mustAny(payerPub), ModeInfo: mode, Sequence: paySeq}},
+		Fee:         &txtypes.Fee{Amount: d.Fee, GasLimit: d.Gas, Payer: sdk.AccAddress(payerPub.Address()).String()},
+	}
+	bb, _ := body.Marshal()
+	ab, _ := ai.Marshal()
+	acc := d.AccNum
+	if forPayer {
+		acc = payerAccNum
+	}
+	bz, _ := (&txtypes.SignDoc{BodyBytes: bb, AuthInfoBytes: ab, ChainId: d.ChainID, AccountNumber: acc}).Marshal()
+	return bz
+}
+
+// checkTwoSigners: documents of a fee-payer transaction. If the encoder renders such a document at all, the rendering
+// the fee payer signs must still be injective in the fee payer's own sequence (and a signature over one must not verify
+// for the other); a refusal to render is fine and counted.
+func (e *docEnv) checkTwoSigners(i int, d *doc, pub *ethsecp256k1.PubKey, r *vh.RNG) {
+	run := e.run
+	payer := genPriv(r)
+	payerPub := payer.PubKey().(*ethsecp256k1.PubKey)
+	paySeq, payAcc := uint64(r.Intn(1000)), uint64(1+r.Intn(5000))
+	a := d.renderProtoTwoSigners(pub, payerPub, paySeq, payAcc, true)
+	b := d.renderProtoTwoSigners(pub, payerPub, paySeq+1+uint64(r.Intn(3)), payAcc, true)
+	ra, ea := typedBytes(a)
+	rb, eb := typedBytes(b)
+	run.Eval(1)
+	if ea != nil || eb != nil {
+		run.Count("doc.two-signer-infos:rendering-refused", 1)
+		run.Nontrivial("doc|two-signer-infos|refused")
+		return
+	}
+	run.Count("doc.two-signer-infos:rendered", 1)
+	run.Nontrivial("doc|two-signer-infos|rendered")
+	label := fmt.Sprintf("doc/%d", i)
+	if bytes.Equal(ra, rb) {
+		viol(run, "eip712-hash-collision:fee-payer-sequence", label, map[string]any{"doc": d.describe(), "fee_payer_sequence_A": paySeq, "typed_bytes": short(ra),
+			"note": "two SIGN_MODE_DIRECT sign documents of the fee payer that differ only in the fee payer's sequence have the same EIP-712 rendering"})
+		return
+	}
+	if sig, err := payer.Sign(ra); err == nil && e.verify(payerPub, b, sig) {
+		viol(run, "eip712-signature-verifies-for-other-doc:fee-payer-sequence", label, map[string]any{"doc": d.describe(), "fee_payer_sequence_A": paySeq})
+	}
+}
+
 func (e *docEnv) checkDoc(i int) {
 	run := e.run
 	label := fmt.Sprintf("doc/%d", i)
@@ -470,6 +524,9 @@ func (e *docEnv) checkDoc(i int) {
 	signer := pub.Address().Bytes()
 	d := genDoc(r, signer)
 	perts := perturbations(r, d, signer)
+	if i%4 == 0 {
+		e.checkTwoSigners(i, d, pub, r)
+	}
 	run.Eval(1)
 	for _, k := range d.Kinds {
 		run.Count("doc.msgs-of-kind:"+k, 1)
